@@ -57,8 +57,12 @@ def tasks(tier, seed):
     for cfg in ([(1, 1, 3, 'full_abs'), (2, 1, 2, 'last_abs'), (2, 1, 3, 'full_abs'), (1, 2, 2, 'full_abs'), (2, 2, 2, 'full_abs')] if quick else
                 [(1, 1, 4, 'full_abs'), (2, 1, 3, 'last_abs'), (2, 1, 3, 'full_rel'), (2, 1, 4, 'full_abs'), (1, 2, 3, 'full_abs'), (2, 2, 3, 'full_abs'),
                  (3, 1, 3, 'full_abs'), (3, 2, 2, 'full_abs')]):
-        for jac in ((True, False) if cfg[0] > 1 and cfg[1] == 1 else (True,)):
+        for jac in ((True, False) if cfg[0] > 1 else (True,)):
             T.append(('fresh',) + cfg + (jac,))
+            if cfg[0] > 1:
+                # never converging (restol = -1): every step iterates to the budget, so later steps receive new values at every iteration
+                for pred in ((None,) if cfg[1] == 1 else (None, 'pfasst_burnin')):
+                    T.append(('fresh',) + cfg + (jac, -1.0, pred))
     return T
 
 
